@@ -179,6 +179,41 @@ func assignedVar(info *types.Info, root ast.Node, call *ast.CallExpr, idx int) t
 					return flow.Obj(info, as.Lhs[j])
 				}
 			}
+			// the value is stored in a field of a struct built here (`link := T{r: call}`) and read back
+			// into a variable (`reader := link.r`): that variable receives it
+			if idx == 0 && len(as.Lhs) == len(as.Rhs) {
+				for j, rh := range as.Rhs {
+					field := ""
+					core.Inspect(rh, func(m ast.Node) bool {
+						if kv, ok := m.(*ast.KeyValueExpr); ok && ast.Unparen(kv.Value) == ast.Expr(call) {
+							if id, ok := kv.Key.(*ast.Ident); ok {
+								field = id.Name
+							}
+						}
+						return true
+					})
+					holder := flow.Obj(info, as.Lhs[j])
+					if field == "" || holder == nil {
+						continue
+					}
+					var out types.Object
+					n := 0
+					core.InspectAll(root, func(m ast.Node) bool {
+						if a2, ok := m.(*ast.AssignStmt); ok && len(a2.Lhs) == len(a2.Rhs) {
+							for k, r2 := range a2.Rhs {
+								if sel, ok := ast.Unparen(r2).(*ast.SelectorExpr); ok && sel.Sel.Name == field && flow.IsObj(info, holder)(sel.X) {
+									out = flow.Obj(info, a2.Lhs[k])
+									n++
+								}
+							}
+						}
+						return true
+					})
+					if n == 1 {
+						return out
+					}
+				}
+			}
 			return nil
 		}
 	}
